@@ -191,7 +191,8 @@ def synthetic_interfaces(rng, count):
                                             MArg('x', 'f', None, False)], False, 1, len(reqs)))
         # the tool names connections from set_app_id / set_title / get_layer_surface on *any* interface
         reqs.append(MMessage('set_app_id', False, [MArg('app_id', 's', None, False)], False, 1, len(reqs)))
-        reqs.append(MMessage('set_title', False, [MArg('title', 's', None, False)], False, 1, len(reqs)))
+        # (the last interface is a private protocol whose set_title takes no argument at all)
+        reqs.append(MMessage('set_title', False, [MArg('title', 's', None, False)] if (n != names[-1] or count < 2) else [], False, 1, len(reqs)))
         # one destructor request so ids churn
         reqs.append(MMessage('destroy', False, [], True, 1, len(reqs)))
         out[n] = MInterface(n, rng.randint(1, 4), reqs, evs, synthetic=True)
